@@ -149,17 +149,20 @@ def parseNum (isBytes : Bool) (bs : List Nat) : Option (Option Int) :=
   else if isBytes && bs.any (fun c => 128 ≤ c) then some none
   else none
 
+/-- CPython's `sys.int_info.default_max_str_digits`: `int()` of a longer literal raises `ValueError`. -/
+def tooManyDigits (bs : List Nat) : Bool := decide (4300 < (bs.filter isDigit).length)
+
 def pyInt : Py → Except Exc Int
   | .none => .error .type
   | .bool b => .ok (if b then 1 else 0)
   | .int i => .ok i
   | .float f => truncF f
   | .str bs => match parseNum false bs with
-    | some (some n) => .ok n
+    | some (some n) => if tooManyDigits bs then .error .value else .ok n
     | some none => .error .value
     | none => .error .unmodelled
   | .bytes _ bs => match parseNum true bs with
-    | some (some n) => .ok n
+    | some (some n) => if tooManyDigits bs then .error .value else .ok n
     | some none => .error .value
     | none => .error .unmodelled
   | .list _ => .error .type
@@ -174,11 +177,11 @@ def pyFloat : Py → Except Exc F
   | .int i => intToDouble i
   | .float f => .ok f
   | .str bs => match parseNum false bs with
-    | some (some n) => intToDouble n
+    | some (some n) => .ok (roundF 64 (ofInt n))   -- a literal beyond the range parses to inf, no exception
     | some none => .error .value
     | none => .error .unmodelled
   | .bytes _ bs => match parseNum true bs with
-    | some (some n) => intToDouble n
+    | some (some n) => .ok (roundF 64 (ofInt n))
     | some none => .error .value
     | none => .error .unmodelled
   | .list _ => .error .type
@@ -496,6 +499,17 @@ def stored (t : Ty) (v : Py) : Bool :=
   | .comp .., _ => false
   | t, v => hasTy true t v
 
+/-- `stored` field by field. -/
+def storedS : List Ty → List Py → Bool
+  | [], [] => true
+  | f :: fs, s :: ss => stored f s && storedS fs ss
+  | _, _ => false
+
+/-- How many of the first `n` constructor arguments are given (not `None`). -/
+def givenArgs : Nat → List Py → Nat
+  | 0, _ => 0
+  | n + 1, args => (if isNone (args.headD .none) then 0 else 1) + givenArgs n args.tail
+
 /-- Field types for which the emitted setter establishes full DSDL well-typedness: everything except arrays whose
 integer element type is narrower than its numpy dtype and arrays of composites (elements not `isinstance`-checked). -/
 def fullyChecked : Ty → Bool
@@ -541,7 +555,8 @@ def toBuiltin : Ty → Py → Except Exc Py
     else (xs.mapM (toBuiltin e)).map .list
   | .arr .., _ => .error .other
   | .comp _ _ fs, .obj _ slots => (tbFields fs slots).map (fun vs => .dict vs false)
-  | .comp .., _ => .error .other
+  | .comp _ _ [], _ => pure (.dict [] false)   -- no field is ever read: any object passes (duck typing)
+  | .comp .., _ => .error .other               -- AttributeError on the first field
 def tbFields : List Ty → List Py → Except Exc (List Py)
   | [], _ => pure []
   | f :: fs, s :: ss => do
